@@ -154,7 +154,7 @@ def _derive_seed(*parts):
 
 
 def _write_replay(pid, sub, cfg, case, v, vseed):
-    d = os.path.join(VERIF, "replays")
+    d = os.environ.get("VERIF_REPLAY_DIR") or os.path.join(VERIF, "replays")
     os.makedirs(d, exist_ok=True)
     body = {"property": pid, "subcheck": sub, "config": cfg, "case": enc(case), "signature": v.sig, "message": v.msg[:2000], "seed": vseed}
     h = hashlib.sha1(json.dumps(body["case"], sort_keys=True).encode() + sub.encode()).hexdigest()[:12]
